@@ -40,6 +40,24 @@ std::mutex& TimeZoneMutex() {
   return *time_zone_mutex;
 }
 
+// Serializes the loading of time zones whose data comes from
+// zone_info_source_factory() (but not lookups of zones that have already
+// been loaded), so that the factory is called only once for any zone name,
+// and never concurrently. It is recursive so that a factory, or the
+// ZoneInfoSource it returns, may itself use cctz on the same thread.
+std::recursive_mutex& TimeZoneLoadMutex() {
+  static std::recursive_mutex* time_zone_load_mutex = new std::recursive_mutex;
+  return *time_zone_load_mutex;
+}
+
+// Returns the already-loaded Impl for the given name, or nullptr.
+const time_zone::Impl* FindTimeZone(const std::string& name) {
+  std::lock_guard<std::mutex> lock(TimeZoneMutex());
+  if (time_zone_map == nullptr) return nullptr;
+  TimeZoneImplByName::const_iterator itr = time_zone_map->find(name);
+  return (itr != time_zone_map->end()) ? itr->second : nullptr;
+}
+
 }  // namespace
 
 time_zone time_zone::Impl::UTC() {
@@ -51,24 +69,33 @@ bool time_zone::Impl::LoadTimeZone(const std::string& name, time_zone* tz) {
 
   // Check for UTC (which is never a key in time_zone_map).
   auto offset = seconds::zero();
-  if (FixedOffsetFromName(name, &offset) && offset == seconds::zero()) {
+  const bool fixed_offset = FixedOffsetFromName(name, &offset);
+  if (fixed_offset && offset == seconds::zero()) {
     *tz = time_zone(utc_impl);
     return true;
   }
 
   // Check whether the time zone has already been loaded.
-  {
-    std::lock_guard<std::mutex> lock(TimeZoneMutex());
-    if (time_zone_map != nullptr) {
-      TimeZoneImplByName::const_iterator itr = time_zone_map->find(name);
-      if (itr != time_zone_map->end()) {
-        *tz = time_zone(itr->second);
-        return itr->second != utc_impl;
-      }
+  if (const Impl* found = FindTimeZone(name)) {
+    *tz = time_zone(found);
+    return found != utc_impl;
+  }
+
+  // Only one thread at a time loads a zone that needs the factory, and it
+  // first checks whether some other thread loaded the zone while it was
+  // waiting for its turn. Fixed-offset zones are generated internally, so
+  // they need not queue (and can be requested while a factory is running).
+  std::unique_lock<std::recursive_mutex> load_lock(TimeZoneLoadMutex(),
+                                                   std::defer_lock);
+  if (!fixed_offset) {
+    load_lock.lock();
+    if (const Impl* found = FindTimeZone(name)) {
+      *tz = time_zone(found);
+      return found != utc_impl;
     }
   }
 
-  // Load the new time zone (outside the lock).
+  // Load the new time zone (outside the map lock).
   std::unique_ptr<const Impl> new_impl(new Impl(name));
 
   // Add the new time zone to the map.
